@@ -57,7 +57,7 @@ def build(u):
     for nm, op in [("and", "And"), ("or", "Or")]:
         u.fn(E, "trait ExprTrait", nm, ret="r", rename="etr_" + nm, props=P, key="ExprTrait::%s[default]" % nm, vpath="SimpleExpr::etr_" + nm,
              rules=[make_r_sub("R-into", r"%s<R>\(self, right: R\)" % nm, "%s(self, right: SimpleExpr)" % nm), make_r_sub("R-into", r"where\s+R: Into<SimpleExpr>,", ""),
-                    make_r_sub("R-self2fn", r"ExprTrait::binary\(self,", "Self::binary(self,")],
+                    make_r_sub("R-self2fn", r"(?:ExprTrait::binary\(self,|self\.binary\()", "Self::binary(self,")],
              spec="ensures r == SimpleExpr::Binary(Box::new(self), BinOper::%s, Box::new(right))," % op)
         u.fn(E, "impl SimpleExpr", nm, ret="r", props=P, key="SimpleExpr::" + nm,
              rules=[make_r_sub("R-self2fn", r"ExprTrait::%s\(self," % nm, "Self::etr_%s(self," % nm)],
